@@ -117,6 +117,13 @@ def make_inputs(r, tier):
     for _ in range(6 if tier == "quick" else 60):
         t = T.random_tree(r, r.randint(15, 40), p_branch=0.5)
         deep.append(T.render(t, r.choice(["full", "nopar", "short"])))
+    # width: one to seven bracketed side branches on one residue, in three contexts (followed by more chain, directly in
+    # front of the root, inside a bracket)
+    for k in range(1, 8):
+        side = "".join(f"[{r.choice(['Gal', 'Fuc', 'Man', 'Glc'])}({r.choice('ab')}1-{p_})]" for p_ in range(2, 2 + k))
+        deep.append(f"Man(a1-2){side}Glc(b1-4)Glc")
+        deep.append(f"Man(a1-2){side}Glc")
+        deep.append(f"Xyl(b1-2)[Man(a1-3){side}Man(a1-6)]Man(b1-4)GlcNAc")
     for s in deep:
         items.append(("deep", s))
         for m in mutants(r, s, 2):
